@@ -280,9 +280,7 @@ func (cf *CloudflarePublisher) getZoneData(ctx context.Context, zone string, dat
 				Data httpsData `json:"data"`
 			} `json:"result"`
 			ResultInfo struct {
-				Count      int `json:"count"`
 				Page       int `json:"page"`
-				PerPage    int `json:"per_page"`
 				TotalPages int `json:"total_pages"`
 			} `json:"result_info"`
 		}
@@ -295,7 +293,9 @@ func (cf *CloudflarePublisher) getZoneData(ctx context.Context, zone string, dat
 		for _, r := range result.Result {
 			data[zoneName{zone, r.Name}] = idData{zoneID, r.ID, r.Data}
 		}
-		if len(result.Result) == 0 || result.ResultInfo.Page >= result.ResultInfo.TotalPages || result.ResultInfo.Page*result.ResultInfo.PerPage >= result.ResultInfo.Count {
+		// result_info.count is the number of items on this page, not the
+		// total: only an empty page or total_pages end the listing.
+		if len(result.Result) == 0 || result.ResultInfo.Page >= result.ResultInfo.TotalPages {
 			break
 		}
 	}
